@@ -513,7 +513,16 @@ fn main() {
                             let mut a = ms.clone(); a.insert(i, ms[i].clone()); mutants.push(("duplicate-same", J::Obj(a)));
                             let changed = match &ms[i].1 { J::Int(n) => J::Int(n + 1), J::Str(s) => J::Str(format!("{s}y")), J::Bool(b) => J::Bool(!b), other => { let _ = other; J::Int(99) } };
                             let mut a = ms.clone(); a.insert(i, (ms[i].0.clone(), changed.clone())); mutants.push(("duplicate-changed-first", J::Obj(a)));
-                            let mut a = ms.clone(); a.push((ms[i].0.clone(), changed)); mutants.push(("duplicate-changed-last", J::Obj(a)));
+                            let mut a = ms.clone(); a.push((ms[i].0.clone(), changed.clone())); mutants.push(("duplicate-changed-last", J::Obj(a)));
+                            // a sibling whose name differs from this member's only by an escaped character (backslash, quotation mark)
+                            if !ms[i].0.is_empty() {
+                                let k = &ms[i].0;
+                                let cut = k.char_indices().nth(1).map(|(i, _)| i).unwrap_or(k.len());
+                                let near = format!("{}\\{}", &k[..cut], &k[cut..]);
+                                let mut a = ms.clone(); a.insert(i, (near.clone(), changed.clone())); mutants.push(("insert-near-name-first", J::Obj(a)));
+                                let mut a = ms.clone(); a.push((near, changed.clone())); mutants.push(("insert-near-name-last", J::Obj(a)));
+                                let mut a = ms.clone(); a.push((format!("{k}\""), changed.clone())); mutants.push(("insert-near-name-quote", J::Obj(a)));
+                            }
                             // the role tag
                             if ms[i].0 == "_type" && p.is_empty() {
                                 for other in kinds { if other != kind {
